@@ -634,6 +634,37 @@ class Gen:
                 variants.append(dict(name=vn, style=st, fields=fs))
             d, m = self.emit_enum(ty, variants, rp)
             self.add_item(mod, ty, d, m, {"curated", "enum", "repr:" + str(rp)}, pool_t=T("super::%s::%s" % (mod, ty), tags={"nested-derived"}, depth=1))
+        # introspection-ignored fields in tuple and named structs
+        for (mod, ty, style, fields) in [
+            ("cur_ti1", "CurTI1", "tuple", [("u32", False), ("u16", True), ("u8", False)]),
+            ("cur_ti2", "CurTI2", "tuple", [("String", True), ("u8", False)]),
+            ("cur_ti3", "CurTI3", "tuple", [("u8", False), ("u64", True)]),
+            ("cur_ni1", "CurNI1", "named", [("u8", False), ("u16", True), ("String", False), ("u32", True)]),
+        ]:
+            fl = []
+            for j, (t, ign) in enumerate(fields):
+                f = dict(name=("%d" % j if style == "tuple" else "f%d" % j), ty=t, t=PRIMS[t])
+                if ign:
+                    f["intro_ignore"] = True
+                fl.append(f)
+            d, m = self.emit_struct(ty, fl, None, style)
+            self.add_item(mod, ty, d, m, {"curated", "struct", "introspect-ignore", "style:" + style})
+        # enums whose versioned variants are not declared last (schema discriminants must stay declaration indices)
+        ve = [
+            ("cur_ve1", "CurVE1", None, 1, [("A", "unit", [], 0), ("B", "tuple", ["u32"], 1), ("C", "tuple", ["u16", "u16"], 0)]),
+            ("cur_ve2", "CurVE2", "u8", 2, [("A", "unit", [], 0), ("B", "unit", [], 1), ("C", "named", ["u8"], 2), ("D", "tuple", ["u32"], 0), ("E", "unit", [], 1)]),
+            ("cur_ve3", "CurVE3", "u16", 1, [("A", "tuple", ["String"], 1), ("B", "unit", [], 0), ("C", "tuple", ["u8"], 0)]),
+        ]
+        for (mod, ty, rp, curver, vs) in ve:
+            variants = []
+            for (vn, st, ftys, frm) in vs:
+                fs = [dict(name=("%d" % j if st == "tuple" else "a%d" % j), ty=t, t=PRIMS[t]) for j, t in enumerate(ftys)]
+                v = dict(name=vn, style=st, fields=fs)
+                if frm:
+                    v["from"] = frm
+                variants.append(v)
+            d, m = self.emit_enum(ty, variants, rp)
+            self.add_item(mod, ty, d, m, {"curated", "enum", "versioned-variant", "repr:" + str(rp)}, version=curver)
         # variant-count boundaries of the implicit discriminant width
         for n in (255, 257):
             variants = [dict(name="V%d" % i, style="unit", fields=[]) for i in range(n)]
@@ -961,6 +992,9 @@ def render_abi(g, zoo_mod):
             out.append("        fn give(&self, seed: u64, maxver: u32) -> T;")
             out.append("        fn echo_vec(&self, x: Vec<T>) -> Vec<T>;")
             out.append("        fn opt_res(&self, x: Option<T>) -> Result<T, String>;")
+            out.append("        fn via_cb(&self, x: T, f: &dyn Fn(T) -> T) -> T;")
+            out.append("        fn fut(&self, x: T) -> std::pin::Pin<Box<dyn std::future::Future<Output = T>>>;")
+            out.append("        fn mk_cb(&self, tag: u32) -> Box<dyn Fn(T) -> T>;")
             out.append("    }")
             out.append("    impl IfF%d for FamImpl<T> {" % k)
             out.append("        fn echo(&self, x: T) -> T { self.see(\"echo\", &x); x }")
@@ -968,9 +1002,12 @@ def render_abi(g, zoo_mod):
             out.append("        fn give(&self, seed: u64, maxver: u32) -> T { self.make(seed, maxver) }")
             out.append("        fn echo_vec(&self, x: Vec<T>) -> Vec<T> { for e in x.iter() { self.see(\"echo_vec\", e); } x }")
             out.append("        fn opt_res(&self, x: Option<T>) -> Result<T, String> { match x { Some(v) => { self.see(\"opt_res\", &v); Ok(v) } None => Err(\"none\".to_string()) } }")
+            out.append("        fn via_cb(&self, x: T, f: &dyn Fn(T) -> T) -> T { self.see(\"via_cb\", &x); let y = f(x); self.see(\"via_cb_ret\", &y); y }")
+            out.append("        fn fut(&self, x: T) -> std::pin::Pin<Box<dyn std::future::Future<Output = T>>> { self.see(\"fut\", &x); Box::pin(async move { crate::c09::YieldOnce(false).await; x }) }")
+            out.append("        fn mk_cb(&self, tag: u32) -> Box<dyn Fn(T) -> T> { let seen = self.seen_handle(); Box::new(move |x: T| { seen.lock().unwrap_or_else(|p| p.into_inner()).push((\"mk_cb\", x.to_val())); x }) }")
             out.append("    }")
             out.append("    pub fn call(conn: &AbiConnection<dyn IfF%d>, op: &Op) -> Result<Val, String> {" % k)
-            out.append("        model_call::<T>(op, |x| conn.echo(x), |x| conn.take_ref(x), |s, m| conn.give(s, m), |x| conn.echo_vec(x), |x| conn.opt_res(x))")
+            out.append("        model_call::<T>(op, |x| conn.echo(x), |x| conn.take_ref(x), |s, m| conn.give(s, m), |x| conn.echo_vec(x), |x| conn.opt_res(x), |x, f| conn.via_cb(x, f), |x| conn.fut(x), |t| conn.mk_cb(t))")
             out.append("    }")
             out.append("}")
             ledgers.append((k, i))
@@ -1046,9 +1083,11 @@ def main():
     ap.add_argument("--out", required=True)
     ap.add_argument("--module", default="zoo")
     ap.add_argument("--abi-out", default=None)
+    ap.add_argument("--no-curated", action="store_true", help="skip the curated items (used for the additional thorough-tier zoo)")
     a = ap.parse_args()
     g = Gen(a.seed, a.module)
-    g.curated()
+    if not a.no_curated:
+        g.curated()
     # families first (so that standalone types can not reference them; families may reference earlier families)
     for j in range(a.families):
         kind = j % 5
